@@ -157,12 +157,13 @@ def gen_case(rng, shape=None):
                     pass
     # objects that hooks may touch: everything known now plus a few that hooks may create
     horizon = n + 3
-    never_deleted = [i for i in range(n) if i not in deleted and not (cls[i] == 'I')] or [0]
+    never_deleted = [i for i in range(n) if i not in deleted and not (cls[i] == 'I')]
     def body():
         ops = []
         for _ in range(rng.choice([0, 1, 1, 1, 2, 3])):
             r = rng.random()
-            if r < 0.15: ops.append(['read', rng.choice(never_deleted)])
+            if r < 0.15:
+                if never_deleted: ops.append(['read', rng.choice(never_deleted)])
             elif r < 0.6:
                 t = rng.randrange(horizon) if rng.random() < 0.25 else rng.choice([i for i in range(n) if i not in deleted] or [0])
                 ops.append(['modify', t])
@@ -343,6 +344,13 @@ def check_case(ctx, W, case, pending):
     ctx.count('outcome:' + (res['error'] or 'ok'))
     ctx.count('hook-entries', len([1 for e in log if e[0] != 'stmt'])); ctx.count('statements', len([1 for e in log if e[0] == 'stmt']))
     if any(len(W_refs) for W_refs in res.get('refs', [])): ctx.count('with-references')
+    n_init = len(res['init_state']['objs'])
+    if len(res.get('cls', [])) > n_init: ctx.count('objects-created-inside-hooks', len(res['cls']) - n_init)
+    befores = [e for e in log if e[0] == 'before']
+    if any(e[2] >= n_init for e in befores): ctx.count('before-hook-of-object-created-by-a-hook')
+    queued0 = set(q for q in res['init_state']['queue'] if q is not None)
+    if any(e[2] < n_init and e[2] not in queued0 for e in befores): ctx.count('before-hook-of-object-queued-by-a-hook')
+    if case['action'] == 'entity_flush' and len(befores) > 1: ctx.count('entity_flush:with-principal-objects')
     inp = dict(brief(case), name=name)
     # O1/O2
     complete = res['error'] is None
@@ -432,7 +440,7 @@ def run(ctx):
         pending = []
         for shape in SHAPES:
             check_case(ctx, W, dict(shape), pending)
-        for _ in range(ctx.scale(700, 12000)):
+        for _ in range(ctx.scale(1500, 20000)):
             check_case(ctx, W, gen_case(ctx.rng), pending)
         check_model(ctx, pending)
         ctx.extra['violation_keys'] = sorted(v['key'] for v in ctx.violations)
